@@ -118,6 +118,24 @@ def gen(rng, tier, dist):
         b = enc_spec(a, t[:6], [gen_value(rng, x) for x in t[:6] if reserved(x)])
         for k in range(len(b) + 1):
             add(b[:k], "truncation")
+    # two-segment rings: the same kinds of bytes, split at every position
+    def add_ring(b, cls):
+        for cut in range(len(b) + 1):
+            out.append("ring %s %d %s" % (hx(b), cut, cls))
+            dist["ring-" + cls] = dist.get("ring-" + cls, 0) + 1
+    for _ in range(120 if tier == "quick" else 4000):
+        if rng.random() < 0.7:
+            a, t, ar = gen_message(rng)
+            t = t[:4]; ar = [gen_value(rng, x) for x in t if reserved(x)]
+            b = enc_spec(a, t, ar)
+        else:
+            b = tree_bytes(("B", rng.getrandbits(64), [gen_tree(rng, 1) for _ in range(rng.randrange(3))]))
+        if len(b) > 96:
+            continue
+        if rng.random() < 0.5:
+            add_ring(b, "valid")
+        else:
+            add_ring(mutate(rng, b)[:96], "mutated")
     # crafted witnesses of the repaired defects (D5)
     add(b"", "witness")
     add(b"/a\0\0,bi\0\xff\xff\xff\xfc", "witness")
@@ -134,6 +152,13 @@ def spec_check(case, impl):
     if impl.startswith("CRASH") or impl == "NOOUT":
         return "memory-safety: %s" % impl[:300]
     g = parse_fields(impl)
+    if f[0] == "ring":
+        L = int(g["RL"])
+        if not (L == 0 or 0 < L <= n):
+            return "length-bound: ring split at %s: reported length %d for %d bytes" % (f[2], L, n)
+        if f[3] == "valid" and L != n:
+            return "ring-length: a %d-byte message/bundle split at %s is measured as %d" % (n, f[2], L)
+        return None
     L = int(g["L"])
     if not (L == 0 or 0 < L <= n):
         return "length-bound: reported length %d for a buffer of %d bytes" % (L, n)
@@ -156,5 +181,5 @@ def spec_check(case, impl):
     return None
 
 def nontrivial(case, impl):
-    return " V=1" in impl or case.endswith("mutated") or case.endswith("truncation")
+    return " V=1" in impl or case.endswith("mutated") or case.endswith("truncation") or case.startswith("ring")
 canon = canon
